@@ -4,7 +4,8 @@ import CoreBGP.Props.C02
 /-!
 # C02 (handshake half) — what the FSM does with an OPEN received in OpenSent
 -/
-namespace CoreBGP.Props.C02
+namespace CoreBGP.Props.C02b
+open CoreBGP.Props.C02
 open CoreBGP CoreBGP.Model
 
 def isOnOpen : Act → Bool | .onOpen _ _ => true | _ => false
@@ -54,4 +55,4 @@ theorem negotiated_hold (localHold remoteHold : UInt16) :
   simp only [negotiate, Spec.negotiatedHold]
   split <;> omega
 
-end CoreBGP.Props.C02
+end CoreBGP.Props.C02b
